@@ -256,6 +256,7 @@ structure StRel (A : Arith V) (s : St V) (sS : SSt V) : Prop where
   cregs : s.cregs = sS.cregs
   ops : s.ops = sS.ops
   customs : CustRel A s.customs sS.customs
+  cnodup : (sS.cregs.map Prod.fst).Nodup
 
 theorem defRel_arity (A : Arith V) :
     ∀ (g : GDef V) (gs : SDef V), DefRel A g gs → g.np = gs.np ∧ g.nv = gs.nv
@@ -537,10 +538,15 @@ theorem measure_agree {A : Arith V} {s : St V} {sS : SSt V} (hr : StRel A s sS) 
         cases hj : c.idx with
         | none => simp [hi, hj] at h
         | some j =>
-          simp only [hi, hj, Option.some.injEq] at h ⊢
-          subst h
-          obtain ⟨q0, _, rfl⟩ := argIndices_idx hi hloc
-          simp
+          simp only [hi, hj] at h ⊢
+          split at h
+          · rename_i hlt
+            simp only [Option.some.injEq] at h
+            subst h
+            rw [clbitOk_of_lt hr.cnodup hcs hlt]
+            obtain ⟨q0, _, rfl⟩ := argIndices_idx hi hloc
+            simp
+          · simp at h
     · simp at h
 
 /-- one statement: if the reference elaboration accepts it, the reader accepts it too and
@@ -563,7 +569,7 @@ theorem stmt_agree (A : Arith V) {s : St V} {sS sS' : SSt V} (hr : StRel A s sS)
       simp only [Option.some.injEq] at h; subst h
       refine ⟨{ s with qregs := s.qregs ++ [(n, k)] }, ?_, ?_⟩
       · simp only [elabStmt, hr.qregs, hany, Bool.false_eq_true, if_false]
-      · exact ⟨hr.table, by simp [hr.qregs], hr.cregs, hr.ops, hr.customs⟩
+      · exact ⟨hr.table, by simp [hr.qregs], hr.cregs, hr.ops, hr.customs, hr.cnodup⟩
   | creg n k =>
     simp only [elabStmtS] at h
     split at h
@@ -572,14 +578,26 @@ theorem stmt_agree (A : Arith V) {s : St V} {sS sS' : SSt V} (hr : StRel A s sS)
       simp only [Option.some.injEq] at h; subst h
       refine ⟨{ s with cregs := s.cregs ++ [(n, k)] }, ?_, ?_⟩
       · simp only [elabStmt, hr.cregs, hany, Bool.false_eq_true, if_false]
-      · exact ⟨hr.table, hr.qregs, by simp [hr.cregs], hr.ops, hr.customs⟩
+      · refine ⟨hr.table, hr.qregs, by simp [hr.cregs], hr.ops, hr.customs, ?_⟩
+        simp only [List.map_append, List.map_cons, List.map_nil]
+        rw [List.nodup_append]
+        refine ⟨hr.cnodup, by simp, ?_⟩
+        intro a ha b hb
+        simp only [List.mem_singleton] at hb
+        subst hb
+        intro he
+        subst he
+        simp only [List.mem_map] at ha
+        obtain ⟨r, hr1, hr2⟩ := ha
+        simp only [Bool.not_eq_true, List.any_eq_false, beq_iff_eq] at hany
+        exact hany r hr1 hr2
   | gatedecl name ps qs body =>
     simp only [elabStmtS, Option.map_eq_some_iff] at h
     obtain ⟨bS, hbS, rfl⟩ := h
     obtain ⟨b, hb, hrel⟩ := body_elab_agree A hr ps qs body bS hc hbS
     refine ⟨{ s with customs := (name, .custom name ps.length qs.length b) :: s.customs }, ?_, ?_⟩
     · simp only [elabStmt, hb, Option.map_some]
-    · refine ⟨hr.table, hr.qregs, hr.cregs, hr.ops, ?_⟩
+    · refine ⟨hr.table, hr.qregs, hr.cregs, hr.ops, ?_, hr.cnodup⟩
       simp only [CustRel]
       exact ⟨trivial, by simp only [DefRel]; exact ⟨ps, bS, rfl, rfl, hrel⟩, hr.customs⟩
   | call c =>
@@ -587,19 +605,19 @@ theorem stmt_agree (A : Arith V) {s : St V} {sS sS' : SSt V} (hr : StRel A s sS)
     obtain ⟨op, hop, rfl⟩ := h
     have := call_agree A hr c op hop
     refine ⟨{ s with ops := op :: s.ops }, by simp [elabStmt, this], ?_⟩
-    exact ⟨hr.table, hr.qregs, hr.cregs, by simp [hr.ops], hr.customs⟩
+    exact ⟨hr.table, hr.qregs, hr.cregs, by simp [hr.ops], hr.customs, hr.cnodup⟩
   | measure q c =>
     simp only [elabStmtS, Option.map_eq_some_iff] at h
     obtain ⟨op, hop, rfl⟩ := h
     have := measure_agree hr q c op hop
     refine ⟨{ s with ops := op :: s.ops }, by simp [elabStmt, this], ?_⟩
-    exact ⟨hr.table, hr.qregs, hr.cregs, by simp [hr.ops], hr.customs⟩
+    exact ⟨hr.table, hr.qregs, hr.cregs, by simp [hr.ops], hr.customs, hr.cnodup⟩
   | reset q =>
     simp only [elabStmtS, elabResetS, argIndicesS_eq, Option.map_eq_some_iff] at h
     obtain ⟨l, ⟨loc, hloc, rfl⟩, rfl⟩ := h
     refine ⟨{ s with ops := (loc.map Op.reset).reverse ++ s.ops }, ?_, ?_⟩
     · simp [elabStmt, elabReset, hr.qregs, hloc]
-    · exact ⟨hr.table, hr.qregs, hr.cregs, by simp [hr.ops], hr.customs⟩
+    · exact ⟨hr.table, hr.qregs, hr.cregs, by simp [hr.ops], hr.customs, hr.cnodup⟩
   | barrier as =>
     simp only [elabStmtS] at h
     split at h
@@ -610,7 +628,7 @@ theorem stmt_agree (A : Arith V) {s : St V} {sS sS' : SSt V} (hr : StRel A s sS)
         rw [anylistS_eq] at hloc
         refine ⟨{ s with ops := .barrier loc :: s.ops }, ?_, ?_⟩
         · simp only [elabStmt, hr.qregs, hloc, hnd, if_true]
-        · exact ⟨hr.table, hr.qregs, hr.cregs, by simp [hr.ops], hr.customs⟩
+        · exact ⟨hr.table, hr.qregs, hr.cregs, by simp [hr.ops], hr.customs, hr.cnodup⟩
       · simp at h
     · simp at h
 
@@ -642,7 +660,7 @@ theorem decode_spec (A : Arith V) (table : List BuiltinDef) (ts : List Tok) (d :
   simp only [Option.bind_eq_some_iff] at h
   obtain ⟨ss, hss, sS', hsS', hfin⟩ := h
   have hr0 : StRel A ({ table := table } : St V) ({ table := table } : SSt V) :=
-    ⟨rfl, rfl, rfl, rfl, trivial⟩
+    ⟨rfl, rfl, rfl, rfl, trivial, List.nodup_nil⟩
   obtain ⟨s', hs', hr'⟩ := stmts_agree A ss (parseProgram_src ts ss hss) _ _ sS' hr0 hsS'
   simp only [decodeToks, hss, Option.bind_some, hs', finish_agree A hr', hfin]
 
